@@ -89,9 +89,9 @@ Proof. intros. unfold add_task. simpl. destruct (qwait s); simpl; auto. Qed.
 
 Lemma inv4_step_io : forall c s ch s' l,
   0 <= hw c -> Inv1 s -> Inv2 s -> Inv3 s -> Inv4 c s ->
-  step_io c s ch = Some (s', l) -> taint s' = false -> Inv4 c s'.
+  step_io c s ch = Some (s', l) -> Inv4 c s'.
 Proof.
-  intros c s ch s' l Hhw HI1 HI2 HI3 HI4 H Ht.
+  intros c s ch s' l Hhw HI1 HI2 HI3 HI4 H.
   pose proof (i1_io_o _ HI1) as Ho. pose proof (i2_fl _ HI2) as Hfl.
   pose proof (parked_unique s HI2) as Huniq.
   unfold step_io in H. step_cases H; free_hyps.
@@ -123,9 +123,9 @@ Qed.
 
 Lemma inv4_step_w : forall c s i ch s' l,
   0 <= hw c -> Inv1 s -> Inv2 s -> Inv3 s -> Inv4 c s ->
-  step_w c s i ch = Some (s', l) -> taint s' = false -> Inv4 c s'.
+  step_w c s i ch = Some (s', l) -> Inv4 c s'.
 Proof.
-  intros c s i ch s' l Hhw HI1 HI2 HI3 HI4 H Ht. unfold step_w in H.
+  intros c s i ch s' l Hhw HI1 HI2 HI3 HI4 H. unfold step_w in H.
   destruct (getw s i) as [pc|] eqn:Hg; [|discriminate]. unfold getw in Hg.
   pose proof (HI4 _ _ Hg) as Hi4.
   destruct (worker_facts s i pc HI1 HI2 Hg) as (Hlk & Hmn).
@@ -139,7 +139,6 @@ Proof.
   { intros Hb j p Hj. destruct (i2_sc _ HI2 _ _ Hg) as (Hn0 & _). specialize (Hn0 Hb).
     destruct (w_main p) eqn:Em; auto. destruct (i2_w _ HI2 _ _ Hj) as (Hm & _). specialize (Hm Em). lia. }
   step_cases H; free_hyps.
-  all: simpl in Ht; try discriminate Ht.
   all: unfold setw, hw_exit in *.
   all: repeat match goal with |- context [if ?b then _ else _] => destruct b eqn:? end.
   all: repeat match goal with |- context [match ?b with SWr _ => _ | SEnd => _ end] => destruct b eqn:? end.
@@ -163,9 +162,9 @@ Qed.
 
 Lemma inv4_step : forall c s ch s' l,
   0 <= hw c -> Inv1 s -> Inv2 s -> Inv3 s -> Inv4 c s ->
-  step c s ch = Some (s', l) -> taint s' = false -> Inv4 c s'.
+  step c s ch = Some (s', l) -> Inv4 c s'.
 Proof.
-  intros c s ch s' l Hhw HI1 HI2 HI3 HI H Ht. unfold step in H. destruct ch;
+  intros c s ch s' l Hhw HI1 HI2 HI3 HI H. unfold step in H. destruct ch;
     try (eapply inv4_step_io; eauto; fail); try (eapply inv4_step_w; eauto; fail).
   - destruct (gone s); [discriminate|]. inversion H; subst. intros j p Hj. apply (HI j p Hj).
   - destruct (gone s); [discriminate|]. inversion H; subst. intros j p Hj. apply (HI j p Hj).
